@@ -80,7 +80,7 @@ class _StructStub:
             lo, hi = (-(256 ** n) // 2, 256 ** n // 2) if signed else (0, 256 ** n)
             if not (lo <= v < hi):
                 raise _real_struct.error('argument out of range')
-            u = v + 256 ** n if v < 0 else v
+            u = v % (256 ** n)          # two's complement without a sign branch (fewer CrossHair paths)
         out = ByteList()
         for _ in range(n):
             out.append(u % 256)
@@ -99,8 +99,8 @@ class _StructStub:
             if FLOAT_MODE == 'real':
                 return _real_struct.unpack(fmt, bytes(int(x) for x in bs))
             return (Bits(8 * n, u),)
-        if signed and u >= 256 ** n // 2:
-            u -= 256 ** n
+        if signed:
+            u = u - (256 ** n) * (u // (256 ** n // 2))
         return (u,)
 
 
@@ -233,7 +233,7 @@ def le(u, n):
 
 
 def twos(v, n):
-    return le(v + 256 ** n if v < 0 else v, n)
+    return le(v % (256 ** n), n)
 
 
 def call_rep(c):
@@ -431,8 +431,8 @@ def reach_{K}({SIG}) -> bool:
 {PRE}
     post: _
     """
-    # reachability twin: must be REFUTED (some value encodes to more than one byte)
-    return len(encode(entry({K})[0], value({K}, {ARGS}))) < 2
+    # reachability twin: must be REFUTED (some value encodes to at least one byte)
+    return len(encode(entry({K})[0], value({K}, {ARGS}))) < 1
 '''
 
 
